@@ -268,6 +268,16 @@ def check_c15(chk, args):
         h3, r3 = tlc_histories(chk, 3, lattice='multi', name='emit3')
         chk.stage('tlc.emit exhaustive', hist_len=3, lattice='multi', histories=len(h3), states=r3.distinct)
         hs += h3
+    # two overlapping predicates, then two prints: the first-registered predicate that accepts a value wins whatever
+    # was printed before (q1 accepts A and its descendants, q2 accepts M and D; both accept D)
+    for qa, qb in (('q1', 'q2'), ('q2', 'q1')):
+        for pa, pb in ((1, 2), (2, 1)):
+            for x in CLASSES:
+                for y in CLASSES:
+                    hs.append([{'op': 'regp', 'q': qa, 'p': pa}, {'op': 'regp', 'q': qb, 'p': pb},
+                               {'op': 'print', 'c': x}, {'op': 'print', 'c': y}])
+                    hs.append([{'op': 'regp', 'q': qa, 'p': pa}, {'op': 'regp', 'q': qb, 'p': pb}, {'op': 'print', 'c': x},
+                               {'op': 'isreg', 'c': y, 'cs': 1, 'cd': 1, 'rd': 1}, {'op': 'print', 'c': y}, {'op': 'print', 'c': x}])
     rand = [random_history(rng, rng.randint(4, 14)) for _ in range(1500 if q else 30000)]
     histories = hs + sims + rand
     traces = execute(histories)
